@@ -65,7 +65,7 @@ def gen_record(rng, r):
     cfg["noise"] = mode == "M3" and rng.random() < 0.5
     # granularity of mid-call events: backend calls only, or also every executed source line of library code
     # (a perturbation / switch can then land between two lines that make no backend call)
-    cfg["gran"] = "line" if mode != "M1" and rng.random() < (0.2 if thorough else 0.08) else "event"
+    cfg["gran"] = "line" if mode != "M1" and rng.random() < (0.2 if thorough else 0.06) else "event"
     if cfg["gran"] == "line" and cfg["p_mid"]:
         cfg["p_mid"] = cfg["p_mid"] / 5.0
     if mode == "M3":
@@ -643,7 +643,7 @@ def replay_file(path):
 
 # ------------------------------------------------------------------ driver interface
 
-QUICK_RUNS = 10000
+QUICK_RUNS = 8000
 CHUNK = 50
 CHUNK_TIMEOUT = 900
 THOROUGH_S = 1200
